@@ -174,9 +174,11 @@ def gen_define(rng, ms, name=None, allow_bad=False):
                 body.append(')')
             else:
                 body.append(g)
-        elif r < 0.85:
+        elif r < 0.83:
             body.append(rng.choice(LITS + PLAIN))
-        elif r < 0.90:
+        elif r < 0.87 and ps:
+            body += [rng.choice(ps), '(', rng.choice(LITS[:3]), ')']      # parameter followed by a parenthesised list
+        elif r < 0.91:
             body.append(rng.choice(['(', ')', ',']))
         else:
             body.append(rng.choice(PUNCT))
